@@ -72,6 +72,9 @@ class Scheduler:
         self.deadlocked = False
         self.overrun = False
         self.in_sched = False       # true while scheduler code runs (predicates may execute traced bromelia code)
+        # targeted preemption: [thread name, point kind, nth visit, release predicate, max virtual delay, visits so far]
+        self.holds = []
+        self.holds_taken = 0
 
     # ------------------------------------------------------------------ threads
     def register_driver(self, name="driver"):
@@ -181,6 +184,15 @@ class Scheduler:
             self.in_sched = False
 
     def _point(self, cur, kind, pred, timeout, line):
+        if self.holds and pred is None and not self.killing:
+            for h in self.holds:
+                if h[0] == cur.name and h[1] == kind:
+                    h[5] += 1
+                    if h[5] == h[2]:
+                        # the thread is simply not scheduled until the release predicate holds (or max delay passes)
+                        self.holds_taken += 1
+                        self._point(cur, "held:" + kind, h[3], h[4], None)
+                        break
         self.steps += 1
         cur.steps += 1
         self.now += EPS
@@ -244,6 +256,9 @@ class Scheduler:
         nxt.sem.release()
 
     # ------------------------------------------------------------------ driver helpers
+    def hold(self, thread_name, kind, nth, release_pred, max_delay=5.0):
+        self.holds.append([thread_name, kind, nth, release_pred, max_delay, 0])
+
     def run_until(self, pred, horizon):
         """driver: let the system run until pred() holds, or nothing can ever run again, or `horizon`
         virtual seconds passed.  -> 'ok' | 'quiescent' | 'timeout'"""
